@@ -69,7 +69,41 @@ func lockOp(c *ssa.CallCommon) (string, string, string) {
 	if len(c.Args) == 0 {
 		return "", "", ""
 	}
-	return pathOf(c.Args[0]), mode, op
+	p := pathOf(c.Args[0])
+	recordLockOwner(c.Args[0], p)
+	return p, mode, op
+}
+
+// lockOwners maps (function, mutex path) to "OwnerType.field" of the mutex, so
+// that rules can ask "is some lib.RegisteredDecoys.m held here".
+var lockOwners = map[string]string{}
+
+func recordLockOwner(recv ssa.Value, path string) {
+	v := recv
+	if u, ok := v.(*ssa.UnOp); ok { // pointer-typed mutex field: *sync.Mutex loaded from a field
+		v = u.X
+	}
+	if o, f, ok := fieldOwner(v); ok && recv.Parent() != nil {
+		lockOwners[recv.Parent().String()+"|"+path] = o + "." + f
+	}
+}
+
+// holdsOwner reports whether set contains a lock (W, or R when !write) whose mutex is field "Owner.field".
+func holdsOwner(fn *ssa.Function, set lockSet, owner string, write bool) (string, bool) {
+	for k := range set {
+		if strings.HasPrefix(k, "defer:") {
+			continue
+		}
+		i := strings.LastIndexByte(k, '/')
+		path, mode := k[:i], k[i+1:]
+		if write && mode != "W" {
+			continue
+		}
+		if lockOwners[fn.String()+"|"+path] == owner {
+			return k, true
+		}
+	}
+	return "", false
 }
 
 // LockFlow is the per-instruction result of the lockset analysis of one function.
